@@ -28,6 +28,24 @@ T = {
  "C11": ("Coq proof (the model's score is by construction the normalised linear score of the client mean with offset U x; channel factor and score depend on the probe only through its pooled sums; several statistics score as their sum) + correspondence of score/estimate_x/estimate_ux + entry-point oracle",
          "Theorems over R for any sizes; every entry point of the implementation (score, pooled score, score_using_array, enroll vs enroll_using_array, estimate_x/ux, ISV transform) evaluated on the same arrays.",
          "matrix inverse is an oracle (np.linalg.inv) - the float model uses Gauss-Jordan; x is checked against its normal equation on every case.", "DESIGN.md 4/C11"),
+ "C04": ("Coq proof (chunk independence of the whole fit loops for GMM and k-means and of the cluster variances/weights; order independence of task DAGs, star-graph result and readers-before-writer; isolated = shared under the copy-back inclusion decided on attribute lists generated from /repo/src) + exploration under a custom Dask scheduler",
+         "Theorems: fit on any row chunking = fit on the whole array (model, reported values and iteration count are all in the result); every valid schedule of a task graph yields the denotation; the M-step task starts after all block tasks; copy-back covers the M-step's writes for the lists extracted from the current source. The implementation is run under a scheduler that shuffles the ready set and optionally cloudpickles every task, over row and feature chunkings, against the in-memory fit.",
+         "OS-thread interleavings inside NumPy kernels are not modelled; ISV/JFA fit_using_array and WCCN/whitening are covered by the exploration (their per-class additivity is not yet a theorem).", "DESIGN.md 4/C04"),
+ "C07": ("Coq proof (each block update is the exact argmax of the joint log-posterior; one more iteration never lowers it for ISV and JFA; a joint fixed point is the unique global mode, by an exact second-order expansion) under the contract of np.linalg.inv + enrolment correspondence + independent dense-solve oracle",
+         "Theorems over R for any numbers of components, features, ranks and sessions (fractional counts allowed). ISVMachine/JFAMachine.enroll compared with the float model; the oracle evaluates the joint posterior independently after 1..8 iterations with D of order 1e-3..2 and checks approach to the directly solved mode.",
+         "inverse = oracle with an operator-form contract (incl. symmetry); convergence of the iterates is validated numerically (partial).", "DESIGN.md 4/C07"),
+ "C08": ("Coq proof (score formula, normalisation and zero-frame guard, zero for the UBM, linearity, additivity, shape, and the derivative identity for any numbers of components/features/samples via Coquelicot) + correspondence over all input kinds + finite-difference oracle",
+         "Theorems over R incl. is_derive (sum_i ll(shifted UBM) x_i) 0 (score). linear_scoring compared with the float model for machines/arrays, single/list statistics, scalar/(C,D)/(T,C,D) offsets, with/without normalisation, zero-frame statistics, MAP machine as UBM.",
+         "Reals axioms (Coquelicot).", "DESIGN.md 4/C08"),
+ "C10": ("Coq proof (projection solves the posterior-mean equation, which has a unique solution because the precision is I + PSD; zero statistics give 0; covariance floor; covariances untouched without updating) + project/fit correspondence + independent marginal-likelihood oracle",
+         "Theorems over R under the solver contract; IVectorMachine.project/fit compared with the float model (T0 replayed from the seeded global draw); the oracle computes the marginal likelihood with slogdet after every iteration.",
+         "EM monotonicity of the marginal likelihood is validated numerically only (no determinant theory over R installed): partial.", "DESIGN.md 4/C10"),
+ "C12": ("Coq proof (pairwise tree reduction = plain sum for every length; accumulators form a commutative monoid; per-partition E-steps add up to the E-step of the whole; one iteration independent of the partitioning; schedule independence; copy-back inclusion on generated lists) + bag exploration under the custom scheduler",
+         "Theorems for every number and size of partitions; ISV/JFA/i-vector trained from dask bags with 1..n partitions, shuffled labels, shuffled task orders, shared and isolated, against the in-memory list fit.",
+         "The ISV/JFA regrouping of bag partitions by running index is covered by the exploration, not yet by a theorem.", "DESIGN.md 4/C12"),
+ "C14": ("Coq proof (whitened mean zero; L^T C L = I for M = C^-1 = L L^T with L lower triangular, positive diagonal; whitened covariance and WCCN within-class scatter/K are the identity; the WCCN projection depends only on the partition: class order, sample order and label values) under the contracts of inv and cholesky + correspondence + oracle",
+         "Theorems over R for any dimension, class count and sample count; Whitening/WCCN.fit compared with the float model (Gauss-Jordan, Cholesky-Banachiewicz); oracle on negative / non-contiguous / unsorted labels and Dask input.",
+         "inv/cholesky are oracles with explicit contracts (checked numerically by the oracle on every case).", "DESIGN.md 4/C14"),
 }
 
 NOT_YET = "check not built yet in this round (the proof technique applies; see DESIGN.md section 4)"
